@@ -247,6 +247,15 @@ def callMap {β : Type} (cfg : Cfg) (rd : Reader) (func : Args → Except Err (O
     | .ok c => call (if cfg.passInfo then .both c file else .contentOnly c)
   else call (.infoOnly file)
 
+/-- the wrapper with the user's `args=` / `kwargs=` of `map`: `args = [] if args is None else
+list(args)` makes a fresh copy for every task, so every task's function call sees the same
+user arguments followed by the file arguments (`rd` stands for the handler's reader applied
+with the user's `read_args`, which the wrapper forwards to every read, also inside bundles). -/
+def callMapU {β : Type} (cfg : Cfg) (rd : Reader) (uargs : List String) (kwargs : List (String × String))
+    (func : List String → List (String × String) → Args → Except Err (Option β))
+    (file : FileArg) : Except Err (TaskOut β) :=
+  callMap cfg rd (func uargs kwargs) file
+
 /-- `_pseudo_passer`: returns its first positional argument -/
 def passer : Args → Except Err (Option Content)
   | .contentOnly c => .ok c
